@@ -14,14 +14,16 @@ import SaModel.Props.C01Refine
 C03 — every produced array is a well-formed Arrow array of the declared field.
 
   C03_wfS                toMarrow ext fields rows = ok arrs → one array per field, each `Spec.WFS` (structurally valid) for its
-                         field and of `rows.length` rows (explicit assumptions on schema / rows / Ext: see the section header
-                         there).  TYPE EQUALITY (`Spec.WF = WFS ∧ typeOf a = f.dataType`): `Props.C01.C03_wf'`
-                         (Props/C01Obs.lean) and Props/C03Typed.lean.
+                         field and of `rows.length` rows, for `Safe` schemas (explicit assumptions on schema / rows / Ext:
+                         see the section header there).  HEADLINE with `Safe ∨ coveredF` and TYPE EQUALITY
+                         (`Spec.WF = WFS ∧ typeOf a = f.dataType`): `Props.C01.C03_wf'` (Props/C01Obs.lean) and
+                         Props/C03Typed.lean.
   toMarrow_decode_state  the arrays decode to exactly the columns the final builder state holds (every family)
-  (… which are the documented rows `interpRow` of the records: `Props.C01.C01_build_decode`, Props/C01.lean)
+  (… which are the documented rows `interpRow` of the records: `Props.C01.C01_build_decode`, Props/C01.lean, and without
+  `Safe` `Props.C01.C01_build_decode'`, Props/C01Obs.lean)
 built from the physical layer proved in Lemmas/{Bits,Utf8,FloatBounds,C03*}.lean — `finish_decodeP`/`finish_decode` (the
 finished array means what the state holds), `finish_wf` (it is well formed), the push invariants `push_PX` (offsets,
-UTF-8, view descriptors; no hypotheses) and `push_LR` (value ranges) — and the operational refinement of Props/C01.lean
+UTF-8, view descriptors; no hypotheses) and `push_LR` (value ranges) — and the operational refinement of Props/C01Refine.lean
 (`runRows_rows`, `runRows_interp`) and Lemmas/C10TakePush.lean (`push_takeRest`).  Findings are witness theorems.
 -/
 namespace SaModel.Props.C03
@@ -484,22 +486,22 @@ theorem toMarrow_decode_of_root (ext : Ext) (fields : List Field) (rows : List S
 
 /-! ### the assembled theorems (refinement interface discharged)
 
-With agent-refine's theorems merged (`Build.push_takeRest`, `Props.C01.runRows_rows`, `Props.C01.runRows_interp`,
-`WFB_StrictDict`) nothing of the interface remains.  What stays are explicit assumptions on the schema, the rows and
-`Ext`, each justified in notes/C03.md:
+With `Build.push_takeRest`, `Props.C01.runRows_rows`, `Props.C01.runRows_interp` and `WFB_StrictDict` nothing of the proof
+interface remains.  What stays are explicit assumptions on the schema, the rows and `Ext`, each justified in notes/C03.md:
 
   schema   `SchemaOKF` (no `FixedSizeBinary(0)`: exclusion of the recorded known finding, witness theorem in this file);
            `Safe root0` (Build/Inv.lean: no dictionary with non-nullable keys below a nullable struct / fixed-size
-           list; a property of the fresh root, i.e. of the schema — `Props.C01.dict_placeholder_unstable`)
-           (`Map2F` — Map entries with exactly two children — and the integer-key half of the former `SchemaOKF` are no
-           longer assumptions: `build_builder` refuses those fields, repo fixes 095456f / 7359431, and `BuiltFor` is
-           derived from `newRoot fields = ok _` alone)
-  rows     `SValOK` (an iN/uN/f32/f64 call carries a value of that width).  The former assumption `rawOK` (raw key/value
-           call streams alternate) is GONE: since repo fix eafdf15 a Map builder refuses the streams that do not
-           (`Props.C01.map_refuses_non_alternating`), so `toMarrow … = .ok arrs` already excludes them
+           list; a property of the fresh root, i.e. of the schema — `Props.C01.dict_placeholder_unstable`); the headline
+           `Props.C01.C03_wf'` / `C03_wfS'` (Props/C01Obs.lean) weakens it to `Safe root0 ∨ coveredF`.
+           Map entries with exactly two children and integer dictionary key types are NOT assumptions: `build_builder`
+           refuses the other fields (repo fixes 095456f / 7359431) and `BuiltFor` is derived from `newRoot fields = ok _`
+           alone (`newRoot_builtFor`)
+  rows     `SValOK` (an iN/uN/f32/f64 call carries a value of that width).  No hypothesis on raw key/value call streams:
+           a Map builder refuses the streams that do not alternate (repo fix eafdf15,
+           `Props.C01.map_refuses_non_alternating`), so `toMarrow … = .ok arrs` already excludes them
   Ext      `ExtOK` (what the external chrono parsers return fits the column's storage)
-(the former size assumption `ViewSmall` is now derived: the view builders refuse lengths / offsets beyond `i32::MAX`, the
-state invariant `WFB` carries the buffer bound — `Build.WFB_small`) -/
+(no size assumption on view buffers: the view builders refuse lengths / offsets beyond `i32::MAX` and the state invariant
+`WFB` carries the buffer bound — `WFB_small`, Lemmas/C01Small.lean) -/
 
 /-- **C03, structural half** (`Safe` version; the headline with type equality is `Props.C01.C03_wf'`, Props/C01Obs.lean).
 Every array `to_marrow` returns is a structurally valid array of its field (`Spec.WFS`: data type compatible with the
@@ -601,8 +603,8 @@ theorem All2_get {α β} {R : α → β → Prop} : ∀ {l1 : List α} {l2 : Lis
     | zero => exact hr
     | succ i => exact hg i (by simpa using h1) (by simpa using h2)
 
-/-! `toMarrow_decode_state` composed with R3 (`Props.C01.runRows_interp`) is the end-to-end statement of C01,
-`Props.C01.C01_build_decode` (Props/C01.lean; it supersedes the former `toMarrow_decode_partial` of this file). -/
+/-! `toMarrow_decode_state` composed with R3 (`Props.C01.runRows_interp`) is the `Safe`-carrying end-to-end statement of C01,
+`Props.C01.C01_build_decode` (Props/C01.lean); the `Safe`-free one is `Props.C01.C01_build_decode'` (Props/C01Obs.lean). -/
 
 /-! ### a worked instance: the hypotheses are jointly satisfiable on a real run
 
